@@ -307,6 +307,13 @@ func (w *World) config(kind, store int) *mast.RemoteConfig {
 		StoreImmutablePartsWith: w.store(store),
 		NodeCache:               w.cache,
 	}
+	if w.Opts["regtypes"] == "1" {
+		// the v1marshaler loader for marshalers that know their types: the node is unmarshaled straight into
+		// []interface{} (string keys and string values come back as themselves from encoding/json)
+		cfg.KeysLike = nil
+		cfg.ValuesLike = nil
+		cfg.UnmarshalerUsesRegisteredTypes = true
+	}
 	if w.Opts["callbacks"] == "1" {
 		// caller-supplied callbacks with the default meaning: the code paths taken when the configuration
 		// carries its own key order and marshalers
